@@ -753,3 +753,76 @@ def consistent_assignments(guards, atoms):
         if okk:
             out.add(asg)
     return out
+
+
+def template_call_is_total(module_tree, y, class_node=None):
+    """`TEMPLATE.format(a, b, k=c)` / `TEMPLATE % (a, b)` cannot raise on its own when TEMPLATE is a string constant bound once at
+    module (or class) level - so it contains none of the caller's text -, its replacement fields are plain (`{}` / `{0}` / `{name}`,
+    conversions !r !s, no attribute / index lookup, no format spec; `%s` / `%r` only) and agree in number / name with the
+    arguments, and the arguments are names, attributes, constants or type() / len() / repr() / str() of those."""
+    import string
+
+    def const_of(t):
+        name = t.id if isinstance(t, ast.Name) else (t.attr if isinstance(t, ast.Attribute) and isinstance(t.value, ast.Name) and t.value.id in ("self", "cls") or
+                                                     (isinstance(t, ast.Attribute) and class_node is not None and isinstance(t.value, ast.Name) and t.value.id == class_node.name) else None)
+        if isinstance(t, ast.Constant) and isinstance(t.value, str):
+            return t.value
+        if name is None:
+            return None
+        bodies = [module_tree.body] + ([class_node.body] if class_node is not None and not isinstance(t, ast.Name) else [])
+        for body in bodies:
+            defs = [st for st in body if isinstance(st, (ast.Assign, ast.AnnAssign)) and any(isinstance(x, ast.Name) and x.id == name for x in (st.targets if isinstance(st, ast.Assign) else [st.target]))]
+            if len(defs) == 1 and isinstance(defs[0].value, ast.Constant) and isinstance(defs[0].value.value, str):
+                # never rebound anywhere else in the module
+                stores = [x for x in ast.walk(module_tree) if isinstance(x, ast.Name) and x.id == name and isinstance(x.ctx, ast.Store)]
+                if len(stores) <= 1:
+                    return defs[0].value.value
+        return None
+
+    def plain(a):
+        if isinstance(a, (ast.Name, ast.Constant)):
+            return True
+        if isinstance(a, ast.Attribute):
+            return plain(a.value)
+        if isinstance(a, ast.Call) and isinstance(a.func, ast.Name) and a.func.id in ("type", "len", "repr", "str") and len(a.args) == 1 and not a.keywords:
+            return plain(a.args[0])
+        return False
+
+    if isinstance(y, ast.Call) and isinstance(y.func, ast.Attribute) and y.func.attr == "format":
+        tmpl = const_of(y.func.value)
+        if tmpl is None or not all(plain(a) for a in y.args) or not all(k.arg and plain(k.value) for k in y.keywords):
+            return False
+        try:
+            fields = list(string.Formatter().parse(tmpl))
+        except ValueError:
+            return False
+        auto = 0
+        for _, fname, spec, conv in fields:
+            if fname is None:
+                continue
+            if spec or conv not in (None, "r", "s"):
+                return False
+            if fname == "":
+                if auto >= len(y.args):
+                    return False
+                auto += 1
+            elif fname.isdigit():
+                if int(fname) >= len(y.args):
+                    return False
+            elif fname.isidentifier():
+                if fname not in {k.arg for k in y.keywords}:
+                    return False
+            else:
+                return False
+        return True
+    if isinstance(y, ast.BinOp) and isinstance(y.op, ast.Mod):
+        tmpl = const_of(y.left)
+        if tmpl is None:
+            return False
+        args = list(y.right.elts) if isinstance(y.right, ast.Tuple) else [y.right]
+        if not all(plain(a) for a in args):
+            return False
+        import re as _re
+        convs = _re.findall(r"%(.)", tmpl.replace("%%", ""))
+        return isinstance(y.right, ast.Tuple) and all(c_ in "sr" for c_ in convs) and len(convs) == len(args)
+    return False
